@@ -42,7 +42,7 @@ func init() {
 				n, sweep = 4000, 10
 			}
 			return []runner.Phase{
-				{Name: "scenarios", Variant: "race", Cases: n, Run: c01case, CaseTimeout: 180 * time.Second, Required: []string{"late_delivered_then_reused", "calls_ok", "calls_server_error", "calls_timeout", "calls_ctx", "window_scenarios", "answers_split_across_the_read_timeout"}},
+				{Name: "scenarios", Variant: "race", Cases: n, Run: c01case, CaseTimeout: 180 * time.Second, Required: []string{"late_delivered_then_reused", "calls_ok", "calls_server_error", "calls_timeout", "calls_ctx", "window_scenarios", "answers_split_across_the_read_timeout", "answers_longer_than_a_mebibyte", "write_stalls_between_two_frames"}},
 				{Name: "stream-sweep", Variant: "plain", Cases: sweep, Shards: 2, Run: c01sweep, CaseTimeout: 300 * time.Second, Required: []string{"ids_swept"}},
 			}
 		},
@@ -109,6 +109,30 @@ func c01cfg(c *runner.Ctx, i int) *echoCfg {
 			ec.reusePhase = 200
 		}
 	}
+	if i%12 == 3 {
+		// family: a few answers are 1..4 MiB long (not a whole number of MiB), with ordinary answers right behind them
+		ec.hugeAnswers = true
+		ec.callers = []int{4, 16, 64}[r.Intn(3)]
+		ec.perCaller = 400/ec.callers + 1
+		ec.timeout = 2 * time.Second
+		ec.pLate, ec.pNever, ec.pSplit = 0, 0, 0
+		ec.writeCutAt, ec.nodeCloseAfter = -1, -1
+		ec.reusePhase = 100
+	}
+	if i%12 == 7 {
+		// family: the peer stops reading for one write deadline, exactly between two frames of a coalesced batch
+		ec.coalesce = []time.Duration{200 * time.Microsecond, 2 * time.Millisecond}[r.Intn(2)]
+		ec.callers = []int{16, 64}[r.Intn(2)]
+		ec.perCaller = 600/ec.callers + 1
+		ec.stallAt, ec.stallAtBoundary = int64(300+r.Intn(6000)), true
+		ec.writeTimeout = time.Duration(5+r.Intn(20)) * time.Millisecond
+		ec.writeCutAt, ec.nodeCloseAfter = -1, -1
+		ec.pLate, ec.pNever, ec.pSplit = 0, 0, 0
+		ec.reusePhase = 700
+		if ec.version < 3 {
+			ec.reusePhase = 200
+		}
+	}
 	return ec
 }
 
@@ -148,6 +172,13 @@ func c01case(c *runner.Ctx, i int) {
 		c.Violation(fmt.Sprintf("C01:wrong-response:v%d", ec.version), "a caller received a response that belongs to another request: "+m, wit)
 	}
 	c.Add("answers_split_across_the_read_timeout", res.splits)
+	c.Add("answers_longer_than_a_mebibyte", res.hugeSent)
+	if ec.stallAtBoundary {
+		c.Add("write_stalls_between_two_frames", 1)
+	}
+	for _, d := range res.dupTokens {
+		c.Violation("C01:request-sent-twice", "a request frame reached the node twice, so its stream id gets two answers and the second belongs to nobody (or to whoever holds the id by then): "+d, wit)
+	}
 	for _, s := range echoDesync(res) {
 		c.Violation("C01:driver-lost-its-place-in-the-response-stream", s, wit)
 	}
@@ -157,7 +188,7 @@ func c01case(c *runner.Ctx, i int) {
 	for _, s := range res.streamReuse {
 		c.Violation(fmt.Sprintf("C01:stream-reused-while-pending:v%d", ec.version), "a request was sent on a stream id whose previous response had not been written yet: "+s, wit)
 	}
-	if ec.writeCutAt < 0 {
+	if ec.writeCutAt < 0 && (ec.stallAt <= 0 || ec.stallAtBoundary) {
 		for _, b := range res.badFrames {
 			c.Violation(fmt.Sprintf("C01:garbled-request:v%d", ec.version), "the node could not decode a request (no write fault was injected): "+clipS(b), wit)
 		}
